@@ -1,6 +1,5 @@
 #include "common.hpp"
 namespace vh {
 std::string run_grid_case(const vj::value&) { throw std::runtime_error("grid: not built"); }
-std::string run_pool_case(const vj::value&) { throw std::runtime_error("pool: not built"); }
 std::string run_adi_case(const vj::value&) { throw std::runtime_error("adi: not built"); }
 }
